@@ -1,9 +1,13 @@
 """C08 — changeset chunks tile the sequence range exactly, whatever the size limit.
 
+Serving layer: recorded walks of real agents (Replication engine) in which every server is swept with every need within
+its heads; the changesets it produces for a completely held version must tile the requested ranges (lib/repl.py oracle
+tagged C08), including ranges whose changes were all overwritten.
+
 Decided by: specs/Chunker.tla + specs/ChunkRange.tla (TLC exhaustive over all inputs / limit schedules
 within the bounds) and a replay of every enumerated behaviour on the real ChunkedChanges iterator and
 the real chunk_range; the tiling predicate is also evaluated directly on the real output."""
-import json, os, time, random
+import json, os, time, random, shutil
 from concurrent.futures import ThreadPoolExecutor
 import vlib
 
@@ -144,8 +148,30 @@ def run(tier):
         elif sorted(got["blocks"]) != sorted([list(b) for b in c["blocks"]]):
             if len(mismatch) < 5:
                 mismatch.append("real chunk_range differs from ChunkRange.tla on %s" % json.dumps(c))
+    # serving layer: what send_change_chunks / handle_need make of the chunks
+    import repl
+    repl.PROBE_SWEEPS = 3
+    repl.TRACE_INVS = None
+    nwalks = 6 if tier == "quick" else 30
+    seeds = [vlib.seed() * 100000 + 8000 + i for i in range(nwalks)]
+    served = 0
+    for (seed, tr, wr) in repl.walks(seeds, 3, 3, 60, False, par=8):
+        if tr is None:
+            mismatch.append("seed %d: harness failed: %s" % (seed, (wr.get("error") or "")[:300])); continue
+        served += sum(1 for e in repl.load_trace(tr) if e["op"]["op"] in ("serve", "probe"))
+        v, m = repl.judge(seed, tr, wr, PID)
+        if v or m:
+            keep = os.path.join(vlib.REPLAYS, "%s-walk-%d.ndjson" % (PID, seed))
+            os.makedirs(vlib.REPLAYS, exist_ok=True); shutil.copy(tr, keep)
+            for t in v[:2]:
+                if len(violations) < 8:
+                    violations.append((t, keep))
+            for t in m[:1]:
+                if len(mismatch) < 5:
+                    mismatch.append(t + " (%s)" % keep)
+    vlib.log("[C08] %d walks, %d served needs judged for tiling" % (nwalks, served))
     rnd = random.Random(vlib.seed())
-    cov = {"states": r.distinct + r2.distinct, "transitions": r.generated + r2.generated,
+    cov = {"served_needs_judged": served, "states": r.distinct + r2.distinct, "transitions": r.generated + r2.generated,
            "traces_validated_against_impl": len(cases) + len(cases2),
            "samples": rnd.sample(cases, min(3, len(cases))) + rnd.sample(cases2, min(2, len(cases2))),
            "exhaustive": True, "evaluations": len(cases) + len(cases2), "distinct_nontrivial": nontrivial,
